@@ -6,11 +6,11 @@ SETUP = ("/venv/bin/python -m pip install --no-index --find-links /opt/veriftool
 NOTE = ("Idealisation: IEEE arithmetic = exact arithmetic over Q(i), tolerance tests = exact zero tests. Trusted: CPython, numpy structural ops on object arrays, "
         "leaf contracts in gvc/snp.py, sympy/z3/cvc5 and the solver gvc/alg.py. Discrete shape parameters (collection shapes, vertex counts, exponents) are enumerated, not proved for all values.")
 CLAIMED = {
- "C01": ("Every kind/arity of join and meet in 2D and 3D is executed symbolically on the real code (all complex coordinates, finite or at infinity); incidence, the cofactor spec, validity of 3D line tensors, order independence, both round trips and the body of the power-of-two normalisation are discharged as polynomial identities / ideal-membership obligations for every path.", "4.1"),
+ "C01": ("Every kind/arity of join and meet in 2D and 3D is executed symbolically on the real code (all complex coordinates, finite or at infinity); incidence, the cofactor spec, validity of 3D line tensors, order independence, both round trips and the body of the power-of-two normalisation (real and complex-dtype branch) are discharged as polynomial identities / ideal-membership obligations for every path.", "4.1"),
  "C02": ("On every explored path of join/meet: raises LinearDependenceError only if the rank condition holds, returns only if it does not; NotCoplanar iff det[a,b,c,d] != 0; is_coplanar <=> det = 0. Discharged exactly over all complex coordinates (idealised zero test).", "4.2"),
  "C20": ("det (n=2, Sarrus n=3 for batches >= 64, LAPACK leaf otherwise), adjugate (n=2; epsilon diagram n=3,4; minors for batches >= 64 and n=5), inv (adj/det path with LinAlgError iff singular), is_multiple (<=> all 2x2 minors vanish, every axis form), hat_matrix, matmul/matvec/outer, roots (linear, quadratic with Vieta, triple root) are executed symbolically and discharged against Leibniz/cofactor specifications for all entries; batches are A + k*B so that every batch position ranges over all matrices.", "4.20"),
  "C05": ("TensorDiagram construction and evaluation is executed on symbolic tensor entries for an enumerated set of diagram structures (all 1-2 node diagrams over 23 index-type patterns with up to 3 edges, sampled 3-node diagrams incl. self edges, repeated edges and dimension mismatches): bookkeeping invariants, TensorComputationError <=> spec error, result shape/index types and every result entry == the Einstein sum computed by an independent nested-sum evaluator. LeviCivitaTensor(n<=5, 6 thorough) and KroneckerDelta(n<=4,p) are compared entry by entry with their definitions.", "4.5"),
- "C19": ("Dunder arithmetic of Tensor (all operand kinds, bound tensors and collections), affine point arithmetic incl. points at infinity, fall-through of non-point operands, the whole ufunc->dunder dispatch table, t[index] for every index-kind sequence of ranks 1-3 (rank 4 thorough) against numpy itself as oracle, transpose / T / copy / expand_dims: symbolic entries where values matter, exhaustive enumeration of the finite index-kind and dispatch tables.", "4.19"),
+ "C19": ("Dunder arithmetic of Tensor (all operand kinds, bound tensors and collections), affine point arithmetic incl. points at infinity, fall-through of non-point operands, the whole ufunc->dunder dispatch table, t[index] for every index-kind sequence of ranks 1-3 (rank 4 thorough; integers, slices, None, Ellipsis, index arrays, 1- and 2-axis masks, a boolean scalar alone or combined with the others) against numpy itself as oracle, transpose / T / copy / expand_dims: symbolic entries where values matter, exhaustive enumeration of the finite index-kind and dispatch tables.", "4.19"),
  "C06": ("Tensor.__apply__ / TransformationTensor.__apply__ / inverse / __pow__ / polytope overrides are executed on fully symbolic invertible matrices: t*x equals the tensor action rho(M)(x) entry by entry for points, hyperplanes, 3D lines, quadrics and dual quadrics, (s*t)*x == s*(t*x), identity, t.inverse()*(t*x) == x as exact rational-function identities, t**k == M^k for k in -3..5, segments/triangles move their cached supporting line/plane along; 2D in the quick tier, heavier 3D cases in the thorough tier.", "4.6"),
  "C07": ("For a symbolic invertible matrix: incidence (point/hyperplane, line/plane, point/quadric, hyperplane/dual quadric) is preserved (iff), t*join(..) is proportional to join(t*..) and dually for meet for the 2-argument cases in 2D and 3D (3-argument 3D cases thorough), images of 3D lines are the joins of the image points, polytope vertices are the images in order.", "4.7"),
  "C11": ("crossratio of s_i*A+t_i*B (homogeneous pencil parameters, so points at infinity / at the origin are included) equals the bracket closed form for 1D, 2D, from_point (3D thorough), the four symmetries on the real function, cr(a,a,c,d)=1, NotCollinear/NotConcurrent iff the rank condition, four concurrent lines of any pencil (duality), Lagrange lemma for the Gram precondition.", "4.11"),
